@@ -95,8 +95,8 @@ Theorem C05_failure_removed_parallel :
 Proof. exact parallel_failure_removed. Qed.
 Print Assumptions C05_failure_removed_parallel.
 
-(* NOT PROVED here: that NOTHING reaches the
-   DB for a failed task is C07's refinement applied to the ERemove/ESave events above. *)
+(* That NOTHING is left in the DB for a failed task, and what that means for the next run, is proved at the
+   end of this file (C05_failed_not_recorded_*, C05_failed_never_skipped_next_run). *)
 
 (* --continue processes everything else, WITH THE RIGHT OUTCOME.  [fin tasks always k r]
    (Proofs/OutcomeSpec.v): the outcome r the task table prescribes for task k -- ignored if an effective
@@ -166,3 +166,250 @@ Example C05_right_outcome_nonvacuous :
   In (EFailure 0 kind_unmet) (fst (run_serial tb (fun _ _ => 0) (fun _ => 0) true false 100 [0; 2])) /\
   In (ESuccess 2) (fst (run_serial tb (fun _ _ => 0) (fun _ => 0) true false 100 [0; 2])).
 Proof. vm_compute. tauto. Qed.
+
+(* ===================================================================================================== *)
+(* "without --continue the serial runner starts no further task after the failure"                        *)
+(* Proofs: Proofs/FailStopP.v (_handle_task_error sets stop_running; run_tasks breaks before it asks the  *)
+(* dispatcher for the next node).                                                                         *)
+(* ===================================================================================================== *)
+From DoitV Require Import FailStopP.
+
+(* EXACT shape: the first failure report of a run without --continue (any kind: TaskFailed, TaskError,
+   unmet dependency, DependencyError of get_status / getargs / save_success -- also of a task that was
+   never started) is the only one, and what follows it is finish(): the DB is closed, then the
+   teardowns of the tasks executed BEFORE the failure run in reverse order -- nothing else; the exit
+   code is 1 for TaskFailed and 2 otherwise.  (post = [] only when the model's fuel ran out there: 99) *)
+Theorem C05_no_continue_stops_at_first_failure :
+  forall tasks wake_rank calc_rank always fuel selection pre k kind post,
+    let res := run_serial tasks wake_rank calc_rank false always fuel selection in
+    fst res = pre ++ EFailure k kind :: post ->
+    fail_kinds pre = [] /\
+    ((post = [] /\ snd res = 99) \/
+     (post = EClose :: map ETeardown (rev (filter (has_td tasks) (execs pre))) /\
+      snd res = if kind =? 0 then 1 else 2)).
+Proof. exact serial_stops_after_failure. Qed.
+Print Assumptions C05_no_continue_stops_at_first_failure.
+
+(* spelled out: after the failure report no task is looked at (get_status), started, saved, removed or
+   reported, whatever was selected and whatever was still waiting *)
+Theorem C05_no_continue_no_further_task :
+  forall tasks wake_rank calc_rank always fuel selection pre k kind post,
+    fst (run_serial tasks wake_rank calc_rank false always fuel selection) = pre ++ EFailure k kind :: post ->
+    forall t, ~ In (EGetStatus t) post /\ ~ In (EExecute t) post /\ ~ In (ESave t) post /\ ~ In (ESuccess t) post /\
+              ~ In (ESkipUpToDate t) post /\ ~ In (ESkipIgnore t) post /\ ~ In (ERemove t) post /\
+              forall kd, ~ In (EFailure t kd) post.
+Proof. exact serial_no_task_event_after_failure. Qed.
+Print Assumptions C05_no_continue_no_further_task.
+
+(* non-vacuity: the table of C05_contained_nonvacuous, where --continue goes on to execute task 2;
+   without it the run ends at the failure of task 1 (task 2 was selected and would have run) *)
+Example C05_no_continue_nonvacuous :
+  run_serial ex05 (fun _ _ => 0) (fun _ => 0) false false 100 [0; 2] =
+    ([EGetStatus 1; EExecute 1; ERemove 1; EFailure 1 0; EClose], 1) /\
+  In (EExecute 2) (fst (run_serial ex05 (fun _ _ => 0) (fun _ => 0) true false 100 [0; 2])).
+Proof. vm_compute. split; [reflexivity|tauto]. Qed.
+
+(* ... with teardowns: task 3 (has a teardown) ran before the failing task 1: its teardown is what follows *)
+Example C05_no_continue_teardown_nonvacuous :
+  let tb := fun n => match n with
+    | 1 => Some (Build_task [3] [] [] false false CkRun false OError [] [] [])
+    | 2 => Some (Build_task [] [] [] false false CkRun false OOk [] [] [])
+    | 3 => Some (Build_task [] [] [] true false CkRun false OOk [] [] [])
+    | _ => None end in
+  run_serial tb (fun _ _ => 0) (fun _ => 0) false false 100 [1; 2] =
+    ([EGetStatus 3; EExecute 3; ESave 3; ESuccess 3; EGetStatus 1; EExecute 1; ERemove 1; EFailure 1 1;
+      EClose; ETeardown 3], 2).
+Proof. vm_compute. reflexivity. Qed.
+
+(* ===================================================================================================== *)
+(* "never left recorded as successful: it executes again on the next run"                                 *)
+(* Proofs: Proofs/FailRerunP.v.                                                                           *)
+(*   [db_run md5 v c rt d0 tr d1]: d1 is a DB (Model/Status.v) the run with trace tr can leave from d0:   *)
+(*   save_success at every ESave, remove_success at every ERemove, the record removal of get_status on a  *)
+(*   checker change at an EGetStatus (or not: get_status is not called for a task reported ignored / with *)
+(*   a failed dependency), each with ANY file system at that moment.  [db_after] is the function for one  *)
+(*   fixed file system (an instance: FailRerunP.db_after_run).  [Crash.session_db] is the backend-level   *)
+(*   map of C06 (the one harness/c06.py compares with what the real backends hold after a run).           *)
+(* ===================================================================================================== *)
+From DoitV Require Import Status History StatusP Commands CommandsP FailRerunP.
+From DoitV Require Crash.
+
+(* B1.  A task that got a failure report of ANY kind, in a serial run over ANY task table: whatever the
+   run wrote, the task has NO record afterwards -- no saved file states, no 'deps:', no values, no result
+   (and no ignore mark) *)
+Theorem C05_failed_not_recorded_serial :
+  forall md5 v c rt tasks wake_rank calc_rank continue_ always fuel selection k kind d0 d1,
+    let tr := fst (run_serial tasks wake_rank calc_rank continue_ always fuel selection) in
+    In (EFailure k kind) tr -> db_run md5 v c rt d0 tr d1 ->
+    d1 k = None /\ status_is_ignore d1 k = false /\ getrec d1 k = empty_rec.
+Proof. exact failed_no_record_serial. Qed.
+Print Assumptions C05_failed_not_recorded_serial.
+
+(* ... the parallel runners, every schedule: the dep_manager calls are those of the main process, in
+   the order of the projected log *)
+Theorem C05_failed_not_recorded_parallel :
+  forall md5 v c rt tasks wake_rank calc_rank continue_ always proc fuel nprocs sched selection k kind d0 d1,
+    let tr := proj (fst (run_parallel tasks wake_rank calc_rank continue_ always proc fuel nprocs sched selection)) in
+    In (EFailure k kind) tr -> db_run md5 v c rt d0 tr d1 ->
+    d1 k = None /\ status_is_ignore d1 k = false /\ getrec d1 k = empty_rec.
+Proof. exact failed_no_record_parallel. Qed.
+Print Assumptions C05_failed_not_recorded_parallel.
+
+(* ... and at the level of the backends (C06/C07): no key of the task is left in the map *)
+Theorem C05_failed_not_recorded_backend_serial :
+  forall recd tasks wake_rank calc_rank continue_ always fuel selection k kind m,
+    In (EFailure k kind) (fst (run_serial tasks wake_rank calc_rank continue_ always fuel selection)) ->
+    Crash.session_db recd m (fst (run_serial tasks wake_rank calc_rank continue_ always fuel selection)) k = None.
+Proof. exact failed_no_record_session_serial. Qed.
+Print Assumptions C05_failed_not_recorded_backend_serial.
+
+Theorem C05_failed_not_recorded_backend_parallel :
+  forall recd tasks wake_rank calc_rank continue_ always proc fuel nprocs sched selection k kind m,
+    In (EFailure k kind) (proj (fst (run_parallel tasks wake_rank calc_rank continue_ always proc fuel nprocs sched selection))) ->
+    Crash.session_db recd m (proj (fst (run_parallel tasks wake_rank calc_rank continue_ always proc fuel nprocs sched selection))) k = None.
+Proof. exact failed_no_record_session_parallel. Qed.
+Print Assumptions C05_failed_not_recorded_backend_parallel.
+
+(* what get_status answers for a task without record: `run` or `error` -- up-to-date EXACTLY in the
+   corner where doit never consults the DB: no file_dep, every uptodate item a constant that holds
+   (True, a callable answering True; None items are skipped) and at least one of them, targets present.
+   [constant_uptodate] (FailRerunP.v) is that syntactic condition on the definition. *)
+Theorem C05_no_record_uptodate_iff :
+  forall md5 v c fs d t df, d t = None ->
+    (g_status (get_status md5 v c fs d t df false) = UpToDate <-> constant_uptodate df = true /\ targets_ok fs df).
+Proof. exact norecord_uptodate_iff. Qed.
+Print Assumptions C05_no_record_uptodate_iff.
+
+(* B2.  The two runs.  First run: serial, ANY task table (in particular [run_table md5 v c0 fs0 d0 rt0],
+   and the same with failing actions: [failing]), k gets a failure report of any kind; d1: ANY DB that run
+   can leave.  Second run: ANY file system, checker, task table (k's definition may have changed),
+   --continue or not, --always or not, oracles, fuel, selection.  k is NOT skipped as up-to-date --
+   unless its definition in the second run is in the corner above *)
+Theorem C05_failed_never_skipped_next_run :
+  forall md5 v c0 rt0 tasks wr cr cont0 always0 fuel0 sel0 k kind d0 d1,
+    let tr1 := fst (run_serial tasks wr cr cont0 always0 fuel0 sel0) in
+    In (EFailure k kind) tr1 -> db_run md5 v c0 rt0 d0 tr1 d1 ->
+    forall wr' cr' c1 fs1 rt1 cont1 always1 fuel1 sel1,
+    In (ESkipUpToDate k) (fst (next_run md5 v wr' cr' c1 fs1 d1 rt1 cont1 always1 fuel1 sel1)) ->
+    exists ct, lookup rt1 k = Some ct /\ constant_uptodate (c_def ct) = true /\ targets_ok fs1 (c_def ct) /\ always1 = false.
+Proof. exact failed_then_never_skipped_serial. Qed.
+Print Assumptions C05_failed_never_skipped_next_run.
+
+(* the same as an exclusion.  HYPOTHESIS (minimal by C05_no_record_uptodate_iff): k's definition in the
+   second run is not `constant_uptodate`.  Sufficient: it has a file_dep (C05_hyp_file_dep), no uptodate
+   item at all (C05_hyp_no_items), or an item that is not a constant truth -- run_once, config_changed,
+   result_dep / getargs, False, a callable answering False (C05_hyp_item) *)
+Theorem C05_failed_never_skipped_next_run_hyp :
+  forall md5 v c0 rt0 tasks wr cr cont0 always0 fuel0 sel0 k kind d0 d1,
+    let tr1 := fst (run_serial tasks wr cr cont0 always0 fuel0 sel0) in
+    In (EFailure k kind) tr1 -> db_run md5 v c0 rt0 d0 tr1 d1 ->
+    forall wr' cr' c1 fs1 rt1 cont1 always1 fuel1 sel1,
+    (forall ct, lookup rt1 k = Some ct -> constant_uptodate (c_def ct) = false) ->
+    ~ In (ESkipUpToDate k) (fst (next_run md5 v wr' cr' c1 fs1 d1 rt1 cont1 always1 fuel1 sel1)).
+Proof. exact failed_then_never_skipped_serial_hyp. Qed.
+Print Assumptions C05_failed_never_skipped_next_run_hyp.
+
+Theorem C05_hyp_file_dep : forall df, file_dep df <> [] -> constant_uptodate df = false.
+Proof. exact not_constant_file_dep. Qed.
+Theorem C05_hyp_no_items : forall df, uptodate df = [] -> constant_uptodate df = false.
+Proof. exact not_constant_no_items. Qed.
+Theorem C05_hyp_item : forall df u, In u (uptodate df) -> const_item u = false -> constant_uptodate df = false.
+Proof. exact not_constant_item. Qed.
+
+(* first run parallel (any flavour, worker count, schedule); second run serial or parallel *)
+Theorem C05_failed_never_skipped_next_run_parallel :
+  forall md5 v c0 rt0 tasks wr cr cont0 always0 proc fuel0 nprocs sched sel0 k kind d0 d1,
+    let tr1 := proj (fst (run_parallel tasks wr cr cont0 always0 proc fuel0 nprocs sched sel0)) in
+    In (EFailure k kind) tr1 -> db_run md5 v c0 rt0 d0 tr1 d1 ->
+    forall wr' cr' c1 fs1 rt1 cont1 always1 fuel1 sel1,
+    (In (ESkipUpToDate k) (fst (next_run md5 v wr' cr' c1 fs1 d1 rt1 cont1 always1 fuel1 sel1)) ->
+     exists ct, lookup rt1 k = Some ct /\ constant_uptodate (c_def ct) = true /\ targets_ok fs1 (c_def ct) /\ always1 = false) /\
+    (forall proc1 nprocs1 sched1,
+     In (PE (ESkipUpToDate k)) (fst (run_parallel (run_table md5 v c1 fs1 d1 rt1) wr' cr' cont1 always1 proc1 fuel1 nprocs1 sched1 sel1)) ->
+     exists ct, lookup rt1 k = Some ct /\ constant_uptodate (c_def ct) = true /\ targets_ok fs1 (c_def ct) /\ always1 = false).
+Proof. exact failed_then_never_skipped_parallel. Qed.
+Print Assumptions C05_failed_never_skipped_next_run_parallel.
+
+(* "it executes again": the report of a result of the actions (success, TaskFailed, TaskError) is only
+   made for a task that was executed in that run ... *)
+Theorem C05_result_only_of_executed_serial :
+  forall tasks wake_rank calc_rank continue_ always fuel selection k,
+    let tr := fst (run_serial tasks wake_rank calc_rank continue_ always fuel selection) in
+    In (ESuccess k) tr \/ In (EFailure k kind_failed) tr \/ In (EFailure k kind_error) tr -> In (EExecute k) tr.
+Proof. exact serial_acted_executed. Qed.
+Print Assumptions C05_result_only_of_executed_serial.
+
+(* ... hence: a --continue run over a DB without record of k (B1), not cut short (exit code 0/1/2), k
+   selected, k not in the corner (or --always): k IS EXECUTED, whatever the state of its inputs -- unless
+   a task it depends on is ignored or failed in that run (skip_ignore / unmet dependency) or its
+   file dependencies cannot be read (DependencyError before the start, or from save_success after it) *)
+Theorem C05_no_record_executed_again :
+  forall md5 v wake_rank calc_rank c fs d rt always fuel sel k,
+    d k = None ->
+    (forall ct, lookup rt k = Some ct -> constant_uptodate (c_def ct) = true -> targets_ok fs (c_def ct) -> always = true) ->
+    let res := next_run md5 v wake_rank calc_rank c fs d rt true always fuel sel in
+    snd res <= 2 -> In k sel ->
+    In (EExecute k) (fst res) \/ In (ESkipIgnore k) (fst res) \/
+    In (EFailure k kind_unmet) (fst res) \/ In (EFailure k kind_dep) (fst res).
+Proof. exact norecord_executed_again. Qed.
+Print Assumptions C05_no_record_executed_again.
+
+(* REFUTED as literally worded ("executes again on the next run whatever the state of its inputs"):
+   a task with `uptodate=[True]` and no file_dep, executed because of --always-execute, whose action
+   fails: the record is removed (B1), and the next run -- same definitions, same files, no flag --
+   skips it as up-to-date.  (doit never asks the DB about such a task: documented corner, the one of
+   C13_forget_then_runs_refuted.) *)
+Theorem C05_failed_executes_again_refuted :
+  exists (rt : table) (fs : fsys) (k : name),
+    let md5 := fun x : N => x in
+    let tasks1 := failing [k] OFail (run_table md5 current MD5 fs empty_db rt) in
+    let tr1 := fst (run_serial tasks1 (fun _ _ => 0) (fun _ => 0) false true 50 [k]) in
+    let d1 := db_after md5 current MD5 rt fs empty_db tr1 in
+    tr1 = [EGetStatus k; EExecute k; ERemove k; EFailure k kind_failed; EClose] /\
+    d1 k = None /\
+    fst (next_run md5 current (fun _ _ => 0) (fun _ => 0) MD5 fs d1 rt false false 50 [k]) =
+      [EGetStatus k; ESkipUpToDate k; EClose].
+Proof. exact failed_then_skipped_refuted. Qed.
+Print Assumptions C05_failed_executes_again_refuted.
+
+(* non-vacuity of B1/B2: tasks 0 and 1 both depend on file 0 (present, never modified); task 0 has an old
+   record.  Run 1 (--continue): the action of 0 fails, 1 succeeds.  The DB afterwards has no record of
+   0 and one of 1.  Run 2 -- nothing changed: 0 is executed again (and saved), 1 is skipped as up-to-date;
+   [db_after] is one of the DBs [db_run] allows; the hypothesis of ..._hyp holds for task 0 *)
+Definition ex05_def : tdef := {| file_dep := [0]; targets := []; uptodate := []; act_values := []; act_result := None |}.
+Definition ex05_rt : table :=
+  [(0, {| c_task_dep := []; c_setup := []; c_calc_dep := []; c_subtask_of := None; c_def := ex05_def |});
+   (1, {| c_task_dep := []; c_setup := []; c_calc_dep := []; c_subtask_of := None; c_def := ex05_def |})].
+Definition ex05_fs : fsys := fs_of [(0, {| mtime := 2%Z; size := 4%Z; content := 1 |})].
+Definition ex05_d0 : db := db_of [(0, empty_rec)].
+Example C05_rerun_nonvacuous :
+  let md5 := fun x : N => x in
+  let tasks1 := failing [0] OFail (run_table md5 current MD5 ex05_fs ex05_d0 ex05_rt) in
+  let tr1 := fst (run_serial tasks1 (fun _ _ => 0) (fun _ => 0) true false 50 [0; 1]) in
+  let d1 := db_after md5 current MD5 ex05_rt ex05_fs ex05_d0 tr1 in
+  tr1 = [EGetStatus 0; EExecute 0; ERemove 0; EFailure 0 0; EGetStatus 1; EExecute 1; ESave 1; ESuccess 1; EClose] /\
+  db_run md5 current MD5 ex05_rt ex05_d0 tr1 d1 /\
+  ex05_d0 0 <> None /\ d1 0 = None /\ d1 1 <> None /\
+  (forall ct, lookup ex05_rt 0 = Some ct -> constant_uptodate (c_def ct) = false) /\
+  next_run md5 current (fun _ _ => 0) (fun _ => 0) MD5 ex05_fs d1 ex05_rt false false 50 [0; 1] =
+    ([EGetStatus 0; EExecute 0; ESave 0; ESuccess 0; EGetStatus 1; ESkipUpToDate 1; EClose], 0).
+Proof.
+  cbv zeta. split; [vm_compute; reflexivity|]. split; [apply db_after_run|].
+  split; [vm_compute; discriminate|]. split; [vm_compute; reflexivity|]. split; [vm_compute; discriminate|].
+  split; [|vm_compute; reflexivity].
+  intros ct H. vm_compute in H. inversion H; subst. reflexivity.
+Qed.
+
+(* the other kinds of failure leave no record either: task 0 cannot be checked (file 7 is missing:
+   DependencyError from get_status), task 2 depends on it (unmet dependency); both had a record *)
+Example C05_rerun_other_kinds_nonvacuous :
+  let md5 := fun x : N => x in
+  let miss : tdef := {| file_dep := [7]; targets := []; uptodate := []; act_values := []; act_result := None |} in
+  let rt := [(0, {| c_task_dep := []; c_setup := []; c_calc_dep := []; c_subtask_of := None; c_def := miss |});
+             (2, {| c_task_dep := [0]; c_setup := []; c_calc_dep := []; c_subtask_of := None; c_def := ex05_def |})] in
+  let d0 := db_of [(0, empty_rec); (2, empty_rec)] in
+  let tr1 := fst (next_run md5 current (fun _ _ => 0) (fun _ => 0) MD5 ex05_fs d0 rt true false 50 [2]) in
+  let d1 := db_after md5 current MD5 rt ex05_fs d0 tr1 in
+  tr1 = [EGetStatus 0; ERemove 0; EFailure 0 kind_dep; EGetStatus 2; ERemove 2; EFailure 2 kind_unmet; EClose] /\
+  d1 0 = None /\ d1 2 = None.
+Proof. vm_compute. repeat split. Qed.
